@@ -28,8 +28,8 @@ MANIFEST = {
     'level_note': 'Trusts CPython datetime and rd_ref (self-tested each run); pairs whose month shift leaves year 1..9999 '
                   'on the way are skipped by construction (cannot occur for in-range operands).',
 }
-PLAN = {'quick': {'shards': 2, 'timeout': 300, 'budget': 45},
-        'thorough': {'shards': 16, 'timeout': 1500, 'budget': 420}}
+PLAN = {'quick': {'shards': 2, 'timeout': 1800, 'budget': 900},
+        'thorough': {'shards': 16, 'timeout': 7200, 'budget': 2400}}
 N_CASES = {'quick': 15000, 'thorough': 150000}
 
 YEARS = [1, 2, 4, 100, 400, 1600, 1899, 1900, 1999, 2000, 2001, 2003, 2004, 2023, 2024, 2100, 9998, 9999]
